@@ -46,6 +46,35 @@ def run(repo, rep, tier):
     _loader(repo, rep)
 
 
+def fresh_search_path(repo):
+    """The list that gets the template's directory prepended must be the
+    template's own (a copy), never the caller's / the loader's list."""
+    pf = repo.func(ZT + "PageTemplateFile.__init__")
+    stop = None
+    for i_, st in enumerate(pf.node.body):
+        if isinstance(st, ast.FunctionDef):
+            stop = i_
+            break
+    if stop is None:
+        return False, "post_init closure not found"
+    paths = P.enum_paths(pf.node.body[:stop])
+    ok = bool(paths)
+    detail = ""
+    for p_ in paths:
+        last = None
+        for ev in p_:
+            if ev[0] == "assign" and ev[1] == "search_path":
+                last = ev[2]
+        good = last is not None and (
+            isinstance(last, ast.List) or
+            (isinstance(last, ast.Call) and src(last.func) == "list"))
+        if not good:
+            ok = False
+            detail = "on path [%s] search_path is still the caller's " \
+                     "object" % P.path_text(p_, 8)
+    return ok, detail
+
+
 def _first_stmt_calls(f, text):
     for st in f.node.body:
         if isinstance(st, ast.Expr) and isinstance(st.value, ast.Constant):
@@ -280,30 +309,7 @@ def _loader(repo, rep):
               "a file template's own directory is put first on the search "
               "path of its load: expression", construct="relative-first",
               where=L.where(pf))
-    # the list that gets the template's directory prepended must be the
-    # template's own (a copy), never the caller's / the loader's list
-    stop = None
-    for i_, st in enumerate(pf.node.body):
-        if isinstance(st, ast.FunctionDef):
-            stop = i_
-            break
-    fresh_ok = False
-    detail = ""
-    if stop is not None:
-        paths = P.enum_paths(pf.node.body[:stop])
-        fresh_ok = bool(paths)
-        for p_ in paths:
-            last = None
-            for ev in p_:
-                if ev[0] == "assign" and ev[1] == "search_path":
-                    last = ev[2]
-            good = last is not None and (
-                isinstance(last, ast.List) or
-                (isinstance(last, ast.Call) and src(last.func) == "list"))
-            if not good:
-                fresh_ok = False
-                detail = "on path [%s] search_path is still the caller's " \
-                         "object" % P.path_text(p_, 8)
+    fresh_ok, detail = fresh_search_path(repo)
     rep.check(fresh_ok, "R16.3", pf.qualname,
               "the search path a file template extends with its own "
               "directory is a fresh list on every path (the loader's shared "
